@@ -3795,7 +3795,13 @@ func (r *Resolver) processDelegation(ctx context.Context, rs *resolveState, resp
 	// context is gone — an unbounded context.Background here
 	// used to leak goroutines and mutate authservers long
 	// after the query returned.
-	if r.cfg.IPv6Access {
+	// An enrichment job is itself best-effort work; a referral it walks into
+	// must not start another one. Each detached job begins with a fresh
+	// context - no nameserver loop trail, no nesting depth - so a delegation
+	// that names new nameservers on every response (TTL 0, never cached)
+	// would otherwise make the jobs breed: one per NS name per generation,
+	// for as long as the authority keeps answering, off a single client query.
+	if r.cfg.IPv6Access && !middleware.IsBestEffortRecursionWork(ctx) {
 		reqid := requestIDFromContext(ctx)
 		work := rs.work
 		attemptGuard := middleware.ResolutionAttemptGuardFrom(ctx)
